@@ -132,7 +132,7 @@ def ensure(repo=REPO, variant="lib"):
             fcntl.flock(g, fcntl.LOCK_EX)
             try:
                 olds = sorted((p for p in glob.glob(os.path.join(CACHE, "*")) if os.path.isdir(p) and not p.endswith(".tmp") and os.path.exists(os.path.join(p, "DONE"))), key=os.path.getmtime)
-                for old in olds[:-16]:
+                for old in olds[:-24]:
                     shutil.rmtree(old, ignore_errors=True)
                 for lf in glob.glob(os.path.join(CACHE, ".lock-*")):
                     if time.time() - os.path.getmtime(lf) > 3600 and not lf.endswith(key):
